@@ -33,10 +33,11 @@ CHECKS = {
         "inverse map is its exact inverse, every column has a canonical k-mer whose rank is the column, and the count is (4^k+4^(k/2))/2 / 4^k/2. For k = 1 the real "
         "function is also executed inside the solver and must reproduce the native table (validates the container models). The private get_header of the CLI "
         "crate and of the Python binding is executed for k <= 3 and every column's name compared with a compiler-evaluated oracle list, with the map model iterating "
-        "in insertion and in reversed order.",
+        "in insertion and in reversed order; for k = 4..=7 both headers are dumped by a native run of the real new()+get_header() and the same obligation is decided "
+        "for a symbolic column.",
         "design_ref": "DESIGN.md section 3 / C03",
         "note": NOTE_COMMON + "HashMap/HashSet are fixed-capacity association-list models under cfg(kani); `bio` is patched by a stand-in (not executed). "
-        "Bounds: tables k 1..=6 (quick) / 1..=8 (thorough); header k 1..=3; structs built directly (constructors call rayon::current_num_threads).",
+        "Bounds: tables k 1..=6 (quick) / 1..=8 (thorough); header k 1..=5 (quick) / 1..=7 (thorough).",
         "technique": TECH,
     },
     "C04": {
